@@ -48,8 +48,8 @@ type Result struct {
 	// EagerPoints are the positions (incl. list elements) whose value went through an eager
 	// marshal FUNCTION (Tag, Tone): fault points for "the marshal function panics"
 	EagerPoints []string
-	Panics   int
-	Groups   []*Group // deferred groups started (defer-aware mode)
+	Panics      int
+	Groups      []*Group // deferred groups started (defer-aware mode)
 	// GroupViolation[objPath] is set when a field excused by InFailedGroup really violated non-null
 	GroupViolation map[string]bool
 	// InvalidObjects[objPath]: the object at that path is invalid because one of its OWN direct
